@@ -31,7 +31,8 @@ func runC11(o opts) error {
 		rng := rand.New(rand.NewSource(o.seed))
 		if o.extra == "wide" { // development: only the wide-cell and terminal-width families, in full
 			scns = append(scns, c11.GenWideEdge(rng, 1)...)
-			scns = append(scns, c11.GenTextWidth(rng, 4, 1)...)
+			scns = append(scns, c11.GenTextWidth(rng, 3, 1)...)
+			scns = append(scns, c11.GenTextWidth(rng, 4, 0.5)...)
 		} else if o.tier == "thorough" {
 			scns = append(scns, c11.GenDepth1(rng, 1, 3)...)
 			scns = append(scns, c11.GenCoords(rng, true)...)
@@ -40,7 +41,8 @@ func runC11(o opts) error {
 			scns = append(scns, c11.GenText(rng, 5, 0.04)...)
 			scns = append(scns, c11.GenTextRandom(rng, 6000)...)
 			scns = append(scns, c11.GenWideEdge(rng, 1)...)
-			scns = append(scns, c11.GenTextWidth(rng, 4, 1)...)
+			scns = append(scns, c11.GenTextWidth(rng, 3, 1)...)
+			scns = append(scns, c11.GenTextWidth(rng, 4, 0.5)...)
 		} else {
 			scns = append(scns, c11.GenDepth1(rng, 0.05, 4)...)
 			scns = append(scns, c11.GenCoords(rng, false)...)
